@@ -38,9 +38,11 @@ Scope
      (from its annotation, its default, or the name table below; the parameters left out are listed in
      coverage.type_args.params_not_varied) x the values {None, falsy-but-meaningful (0, "", False), truthy (1, 5, "C",
      True)} x two contexts (all other parameters at their defaults / all other parameters truthy), placed at the sites
-     cast(), type_coerce() of a numeric and of a string literal (result processors), bindparam(type_=) (bind
-     processors)  [thorough: + column(name, type), literal(value, type)].  These statements go through K1/K2 on the
-     six dialect families with the rest, and through K3.
+     cast(), type_coerce() of a numeric literal (result processors), bindparam(type_=) (bind processors)
+     [thorough: + type_coerce() of a string literal, column(name, type), literal(value, type)].  These statements go
+     through K1/K2 with the rest — the generic types on the six dialect families, a dialect package's own types on
+     their own family and the default dialect [thorough: all six] — and through K3 (sites cast, type_coerce of a
+     numeric and of a string literal, bindparam; all types, on SQLite).
 """
 import hashlib
 import itertools
@@ -187,14 +189,25 @@ TYPE_SITES = {
     "col": lambda t: {"k": "select", "cols": [["col", "adhoc", t]]},
     "lit": lambda t: {"k": "select", "cols": [["label", ["lit", 5, t], "v"]]},
 }
-QUICK_SITES = ("cast", "tc_num", "tc_str", "bind")
+QUICK_SITES = ("cast", "tc_num", "bind")
 EXEC_SITES = ("cast", "tc_num", "tc_str", "bind")
+FAMILY_OF = {"mysql": "mysql", "postgresql": "postgresql", "sqlite": "sqlite", "mssql": "mssql", "oracle": "oracle"}
 
 
 def type_statements(tier):
-    """[(family id incl. site, statement descriptor)]"""
+    """[(family id incl. site, statement descriptor)].  quick tier: three sites, and a dialect package's own type is
+    compiled (K1/K2) on its own dialect family and on the default dialect only (descriptor key "only"); the generic
+    types on all six.  thorough: all sites, all six dialects for every type."""
     sites = QUICK_SITES if tier == "quick" else tuple(TYPE_SITES)
-    return [("%s@%s" % (fam, sn), TYPE_SITES[sn](t)) for fam, t in type_variants(tier) for sn in sites]
+    out = []
+    for fam, t in type_variants(tier):
+        pkg = t[0].split(".")[0] if "." in t[0] else None
+        for sn in sites:
+            d = TYPE_SITES[sn](t)
+            if tier == "quick" and pkg:
+                d["only"] = ["default", FAMILY_OF[pkg]]
+            out.append(("%s@%s" % (fam, sn), d))
+    return out
 
 
 def call_args(desc):
@@ -423,6 +436,8 @@ def _phase2(shard, nshards, tier, seed):
     for dn, d in dialects:
         cache = LRUCache(20)
         for n, (desc, s) in enumerate(lru_order):
+            if desc.get("only") and dn not in desc["only"]:
+                continue
             ck, psets = call_args(desc)
             cv, hit = cached_view(d, s, cache, ck, psets)
             fv = fresh_view(d, s, ck, psets)
@@ -554,7 +569,10 @@ def _judge_group(out, dialects, descs, stmts, g, LRUCache, visitors):
         except Exception:  # noqa: BLE001
             pass
     members, extra = g[:6], g[6:30]
+    only = set().union(*[descs[i].get("only") or DIALECTS for i in g])
     for di, (dn, d) in enumerate(dialects):
+        if dn not in only:
+            continue
         memo = {}
 
         def fresh(i):
@@ -664,7 +682,7 @@ def run(run, tier, seed, args):
               "members against the first, up to 30); dialects %s; parameter sets {compiled-in values, override of every named bind}; K3: %d (family, site) sequences "
               "executed forward and backward on in-memory SQLite with and without the compiled cache"
               % (2 if tier == "quick" else 3, p1[0][2], nvar, "the depth-1 corpus and the representative clause statements" if tier == "quick" else "the depth-2 corpus",
-                 ntype, len(type_catalogue()), len(type_variants(tier)), len({f for f, _ in type_variants(tier)}), list(QUICK_SITES if tier == "quick" else TYPE_SITES),
+                 ntype, len(type_catalogue()), len(type_variants(tier)), len({f for f, _ in type_variants(tier)}), list(QUICK_SITES if tier == "quick" else TYPE_SITES) + (["(dialect types: own dialect family + default only)"] if tier == "quick" else []),
                  len(seen), tot["nkeys"] - len(nokey), len(nokey), tot["groups_multi"], largest, list(DIALECTS), sum(r["families"] for r in res3)),
         type_args=dict(types=len(type_catalogue()), domains=DOMAINS, params_varied={n: sorted(d) for n, _, d, _ in type_catalogue()},
                        params_not_varied={n: sk for n, _, _, sk in type_catalogue() if sk}),
